@@ -7,6 +7,7 @@ import (
 	_ "time/tzdata"
 
 	"go.lstv.dev/util/date"
+	"verif/firstuse"
 	"verif/mc"
 	"verif/oracle"
 )
@@ -268,6 +269,7 @@ func boundarySet() []ymd {
 func main() {
 	mc.Main("C07", "complete enumeration of the stated grids (adjacent pairs of every date 0000-9999, all ordered pairs of a boundary set, Add/AddDuration/FromTime grids) against a day-ordinal reference; "+
 		"non-trivial = the two dates differ in more than the day field, or the step crosses a month/year/leap boundary", func(r *mc.Run) {
+		firstuse.Phase(r, map[string][]string{"date": {"arith"}})
 		pAdj := mc.NewProbe(r, "adjacent", nil, probeAdjacent)
 		pPair := mc.NewProbe(r, "pair", nil, probePair)
 		pAdd := mc.NewProbe(r, "add", nil, probeAdd)
